@@ -450,6 +450,19 @@ def compare(w, l):
     def covers(k_gen, k_spec):
         return (k_gen[0] in ('', k_spec[0])) and k_gen[1] <= k_spec[1]
     leaf = [k for k in keys if not any(k != k2 and covers(k, k2) for k2 in keys)]
+    # both branches of a shared boolean guard are real: if only one edge of `if[X]` carries terms, the other branch is the
+    # key without that condition (covered by the unconditional terms only)
+    extra = []
+    for k in leaf:
+        for c in k[1]:
+            if not c.startswith('if['):
+                continue
+            test = c.rsplit('=', 1)[0]
+            if not any(c2 != c and c2.rsplit('=', 1)[0] == test for kk in keys for c2 in kk[1]):
+                k2 = (k[0], frozenset(x for x in k[1] if x != c))
+                if k2 not in leaf and k2 not in extra:
+                    extra.append(k2)
+    leaf = leaf + extra
     definite, undecided = [], []
     for key in sorted(leaf, key=lambda k: (k[0], sorted(k[1]))):
         a = [(cnd, lp, t) for v, e, cnd, lp, t in iw if covers((v, e), key)]
